@@ -1,4 +1,5 @@
 import NgVerif.Proofs.Scales
+import NgVerif.Proofs.Enc
 /-
   C08 — Generated scale metadata is consistent and usable by every later step (integer part of the
   generator; the float stage — delays and keys — is observed and checked by the harness).
@@ -78,5 +79,39 @@ theorem delay_is_the_level_of_near_isotropy (n d : Nat) (hd : 0 < d) :
   delay_spec n d hd
 
 example : delays [(1, 1), (3, 2), (40, 1)] = [0, 1, 5] := by decide
+
+open NgVerif.Pipeline in
+/-- "every such info is accepted by the encoders": for every full-resolution info with a first scale and at
+    least one channel, every type/encoding option pair and number of levels, EVERY scale of the generated info
+    that is `raw` is served by the raw codec, and every scale that is `compressed_segmentation` is served by
+    that codec as soon as the announced data type is one it takes (the generator has promoted uint8/uint16 to
+    uint32 and put a block size on every scale — that part needs no hypothesis) -/
+theorem generated_scales_served_by_encoders (n : Nat) (full : InfoM) (ty enc : Option String)
+    (hne : full.scales ≠ []) (hnc : 0 < full.numChannels) (s : ScaleM)
+    (hs : s ∈ (allInOneInfo n full ty enc).scales)
+    (hty : Generated.neuroglancerDataTypes.contains (allInOneInfo n full ty enc).dataType = true) :
+    (s.encoding = some "raw" → Enc.select (Enc.ofInfo (allInOneInfo n full ty enc) s) = some .raw) ∧
+    (s.encoding = some "compressed_segmentation" →
+      Generated.csegDataTypes.contains (allInOneInfo n full ty enc).dataType = true →
+      Enc.select (Enc.ofInfo (allInOneInfo n full ty enc) s) = some .cseg) := by
+  have hch : (allInOneInfo n full ty enc).numChannels = full.numChannels := by
+    cases hsc : full.scales with
+    | nil => exact absurd hsc hne
+    | cons s0 rest => simp [allInOneInfo, setParams, fillScales, hsc]
+  constructor
+  · intro he
+    apply Enc.select_complete
+    exact ⟨_, _, _, rfl, rfl, he, by simp only [hch]; exact_mod_cast hnc, hty, rfl⟩
+  · intro he hct
+    have hblk : s.csegBlock.isSome = true := by
+      cases hsc : full.scales with
+      | nil => exact absurd hsc hne
+      | cons s0 rest =>
+        simp only [allInOneInfo, setParams, hsc, fillScales, List.mem_map, List.mem_range] at hs
+        obtain ⟨L, _, rfl⟩ := hs
+        simp only [setScale0] at he ⊢
+        split at he <;> simp_all <;> (cases s0.csegBlock <;> simp)
+    apply Enc.select_complete
+    exact ⟨_, _, _, rfl, rfl, he, by simp only [hch]; exact_mod_cast hnc, hty, rfl, hblk, hct⟩
 
 end NgVerif.Props.C08
